@@ -144,6 +144,15 @@ def cases(rng, quick):
         lines = ['E(%s) X0 Z1' % fmt(ps[0]), 'ELSE_CORRELATED_ERROR(%s) Y1' % fmt(ps[1]), 'ELSE_CORRELATED_ERROR(%s) Z0 X2' % fmt(ps[2])]
         out.append(('E/ELSE %s' % (ps,), bell_probe(lines, 3)))
     out.append(('two chains', bell_probe(['E(0.3) X0', 'ELSE_CORRELATED_ERROR(0.5) X1', 'E(0.5) Z0', 'ELSE_CORRELATED_ERROR(0.75) Z1'], 2)))
+    # other noise between the elements of one chain: the chain's state must survive it (the channels that are themselves run as
+    # chains save and restore it)
+    zeros15 = ', '.join(['0'] * 15)
+    for inner in ['PAULI_CHANNEL_2(%s) 1 2' % zeros15, 'PAULI_CHANNEL_2(0.05, 0, 0, 0.1, 0, 0, 0, 0, 0, 0.02, 0, 0, 0, 0, 0.3) 1 2',
+                  'PAULI_CHANNEL_1(0.1, 0.2, 0.3) 1 2', 'PAULI_CHANNEL_1(0, 0, 0) 1', 'DEPOLARIZE2(0.3) 1 2', 'DEPOLARIZE1(0.3) 1 2',
+                  'X_ERROR(0.5) 1', 'HERALDED_ERASE(0.3) 1', 'HERALDED_PAULI_CHANNEL_1(0.1, 0.2, 0.3, 0.1) 1']:
+        for pe in ((1.0, 1.0), (0.5, 0.5), (0.3, 0.75)):
+            lines = ['E(%s) X0' % fmt(pe[0]), inner, 'ELSE_CORRELATED_ERROR(%s) X3' % fmt(pe[1])]
+            out.append(('E ; %s ; ELSE %s' % (inner.split('(')[0], pe), bell_probe(lines, 4)))
     # heralded channels
     for p in grid:
         out.append(('HERALDED_ERASE(%s)' % fmt(p), bell_probe(['HERALDED_ERASE(%s) 0 1' % fmt(p)], 2)))
